@@ -1,7 +1,8 @@
 """Configuration of the check for C18 (loaded by checklib/props.py; COMMON_TRUSTED / MODEL_TRUSTED are in scope)."""
 
 PROP = {'modules': ['AmVerif.Props.C18'],
- 'engines': [{'name': 'rid', 'quick': 60, 'thorough': 2000}],
+ 'engines': [{'name': 'rid', 'quick': 60, 'thorough': 2000},
+             {'name': 'hr', 'tag': 'hr-ids', 'first': 0, 'quick': 24, 'thorough': 400, 'shrink': False, 'classes': ['reload-id-decreased', 'reloaded-twice-in-a-pass', 'rewrite-not-reported', 'rewritten-without-notification', 'watcher-wrong', 'reloaded-global-wrong', 'wrong-attribution', 'sync-timeout']}],
  'rule': 'cases 0-2 enumerate all (stored, offered) pairs over 9 boundary values for ReloadId::update and every AtomicReloadId op, and all length-3 '
          'update sequences over 4 values; later cases alternate random op sequences and free-running concurrent update() calls from 2-6 threads '
          '(validated against the linearisation model); a case is non-trivial when it executes at least one op; distinct = distinct op/result '
